@@ -403,6 +403,22 @@ CHECKS["C19"]["explanation"] += " Writes: every captured write statement (volume
 CHECKS["C19"]["outside"] = "trigger bodies and log/transaction inserts (sequences); that the alone-in-bucket flag is only set while the bucket holds one ledger; several server processes sharing a bucket"
 
 
+FILTER_FAMILY = "leaves of every documented kind per resource (exact / $in / 'a:' / ':b' / 'a::c' / 'a:...' / 'a:b:...' addresses; metadata match and exists; balance[asset] and balance comparisons; dates; ids; reference; reverted; reverted_at; log type) alone and negated, plus $and / $or / $not templates up to depth 3 over 3-5 representative leaves; every filter with and without a point in time; list and count statements"
+
+CHECKS["C20"] = {
+    "level": "other",
+    "explanation": "A family of filter ASTs is generated, handed to the real store (real ResourceRepository.buildFilteredDataset, ResolveFilter, BuildDataset, collectAddressFilters, canPushAddressFilterToLateral, go-libs query.Builder, bun) through the recording SQL driver, and the statement emitted for each filter is evaluated by the SQL evaluator on symbolic tables (rows of several ledgers; addresses as strings whose segment arrays are uninterpreted functions of the string; transactions with posting slots; jsonb metadata over 2 keys). Filter values are sentinels mapped to symbolic variables, distinct per leaf. An independent reference evaluator (pychecks/filters.py) gives the meaning of the AST per entity; z3 decides that the list statement returns exactly the entities whose filter is true, once each, that the count statement counts them, and that no scalar sub-query of the statement can yield more than one row (an SQL error). Resources: accounts, transactions, volumes (current and at a PIT by effective date), aggregated balances (per-asset sums over the matching accounts), logs. The lateral push-down of address filters is covered through the volumes / aggregated statements (templates with $or / $not over partial addresses).",
+    "bounds": {"quick": "K <= 2 rows per table, 2 posting slots per transaction; " + FILTER_FAMILY + " (pairs as combinations, triples over 3 leaves, PIT for ASTs of <= 2 leaves)", "thorough": "K <= 3 rows per table; pairs and triples as permutations over all representative leaves, 4 more templates, PIT for every AST"},
+    "outside": "reading of the filter language where the property is silent (stated in DESIGN.md): an atom over an absent attribute (balance of a never-held asset, reverted_at of a non-reverted transaction, absent reference) is unknown and Kleene logic applies; $like; grouped volumes; volumes by insertion date and OOT windows with filters; strings needing SQL / jsonpath escaping (escapeSQL / escapeJSONPath are not exercised: sentinels are plain); ordering of the page (C21); tables larger than K",
+    "assumptions": COMMON_ASSUME[2:] + SQL_ASSUME + ["row invariants: address_array / sources_arrays / destinations_arrays are the segments of the address they sit next to; every accounts_volumes / moves row has its accounts row in the same ledger; post-commit effective volumes (InvE, C04)"],
+    "technique": "bounded symbolic evaluation (z3) of the SQL text captured from the real store for a generated family of filter ASTs, against an independent reference evaluator of the filter language",
+    "units": [py_unit("filters", "filters-" + r, ["--props", "C20", "--resources", r], timeout_s=3000) for r in ("accounts", "transactions", "volumes", "aggregated", "logs")],
+}
+
+CHECKS["C19"]["units"].append(py_unit("filters", "filters-C19", ["--props", "C19", "--resources", "accounts,volumes,aggregated,transactions"], timeout_s=3000))
+CHECKS["C19"]["explanation"] += " Filtered reads: the C20 family of filter statements (balance / metadata / address sub-selects included), shared bucket and alone-in-bucket, is decided against a reference that only looks at this ledger's rows."
+
+
 CHECKS["C14"] = {
     "level": "other",
     "explanation": "What the code contributes to reference uniqueness is (a) the definition of the unique index, resolved from the migration files on every run (create / drop / rename followed in order), (b) the value the real InsertTransaction writes for a transaction without reference (captured SQL, executed by the DML executor), (c) the constraint name the Go code turns into ErrTransactionReferenceConflict (read from transactions.go). z3 decides over every content of a symbolic transactions table that the resolved index admits: no two transactions of one ledger share a non-empty reference; the index forbids nothing more (equal references in two ledgers are admitted); a transaction without reference is never subject to the index; the mapped constraint name is that unique index. The rollback of the losing writer and the error seen by the caller are covered by C07 (operation create_ref_conflict on the store model).",
